@@ -21,6 +21,7 @@ import (
 	tmproto "github.com/cometbft/cometbft/proto/tendermint/types"
 	storetypes "github.com/cosmos/cosmos-sdk/store/types"
 	sdk "github.com/cosmos/cosmos-sdk/types"
+	banktypes "github.com/cosmos/cosmos-sdk/x/bank/types"
 
 	feemarkettypes "github.com/haqq-network/haqq/x/feemarket/types"
 
@@ -408,6 +409,111 @@ func histWorker(res *engine.Result, tier string, shard, n int) {
 	}
 }
 
+// ---- part real-tx: the gas figure of blocks carrying real transactions ---------------------------
+//
+// The history part above injects gasWanted / gasUsed directly.  Here blocks carry real Cosmos and
+// Ethereum transactions, so that the figure is what the ante handlers' gas-wanted tracking and the
+// block gas meter produce: it must be max(sum of gas limits x multiplier, gas used), from the block
+// at which the base fee becomes active onwards, and the next base fee must follow from it.
+func realTxWorker(res *engine.Result, tier string, shard, n int) {
+	depth := 3
+	if tier == "thorough" {
+		depth = 4
+	}
+	const maxGas = 10000000
+	for _, enableAt := range []int64{0, 3} { // active from the start / activated at the second block of the history
+		enableAt := enableAt
+		fm := defaultFM()
+		fm.BaseFee = sdkmath.NewInt(1000)
+		fm.EnableHeight = enableAt
+		fm.BaseFeeChangeDenominator = 8
+		w := fixture(maxGas, &fm)
+		k := w.App.FeeMarketKeeper
+		type txs struct {
+			name   string
+			cosmos []uint64
+			eth    []uint64
+		}
+		menu := []txs{{"none", nil, nil}, {"cosmos(200k)", []uint64{200000}, nil}, {"cosmos(6M)", []uint64{6000000}, nil}, {"cosmos(10M)", []uint64{10000000}, nil},
+			{"eth(21000)", nil, []uint64{21000}}, {"eth(4M)", nil, []uint64{4000000}}, {"cosmos(6M)+eth(4M)", []uint64{6000000}, []uint64{4000000}}}
+		var ops []engine.Op
+		for _, m := range menu {
+			m := m
+			ops = append(ops, engine.Op{Name: "block{" + m.name + "}", Apply: func(w *world.World, p []string, res *engine.Result) string {
+				ctx := w.App.BaseApp.VerifDeliverCtx()
+				pre := k.GetParams(ctx)
+				h := w.Header.Height
+				enabled := !pre.NoBaseFee && h >= pre.EnableHeight
+				price := new(big.Int).Mul(pre.BaseFee.BigInt(), big.NewInt(3))
+				var sumLimits uint64
+				for _, g := range m.cosmos {
+					fee := sdk.NewCoins(sdk.NewCoin(world.Denom, sdkmath.NewIntFromBigInt(new(big.Int).Mul(price, new(big.Int).SetUint64(g)))))
+					bz, err := w.CosmosTx(w.Ctx(), world.CosmosSpec{Key: w.Keys[1], Gas: g, Fee: fee,
+						Msgs: []sdk.Msg{banktypes.NewMsgSend(w.Addrs[1], w.Addrs[0], sdk.NewCoins(sdk.NewInt64Coin(world.Denom, 1)))}})
+					if err != nil {
+						panic(err)
+					}
+					if r := w.Deliver(bz); r.Code != 0 {
+						return "tx-rejected"
+					}
+					sumLimits += g
+				}
+				for _, g := range m.eth {
+					to := w.Eth[0]
+					nonce := w.App.AccountKeeper.GetAccount(w.Ctx(), w.Addrs[1]).GetSequence()
+					bz, err := world.WrapEth(w.SignEth(w.Keys[1], world.EthSpec{Nonce: nonce, Gas: g, To: &to, Value: big.NewInt(1), GasPrice: price}))
+					if err != nil {
+						panic(err)
+					}
+					if r := w.Deliver(bz); r.Code != 0 {
+						return "tx-rejected"
+					}
+					sumLimits += g
+				}
+				ctx = w.App.BaseApp.VerifDeliverCtx()
+				used := ctx.BlockGasMeter().GasConsumedToLimit()
+				base := pre.BaseFee.BigInt()
+				w.VirtualNextBlock(6*time.Second, nil, nil)
+				ctx = w.App.BaseApp.VerifDeliverCtx()
+				res.Evaluations++
+				viol := func(breach, what string, detail map[string]any) {
+					res.AddViolation(engine.Violation{Signature: "C17|part=realtx|breach=" + breach, What: what, Fixture: fmt.Sprintf("enable-height=%d", enableAt),
+						Path: append([]string{fmt.Sprintf("fixture=enable-height=%d", enableAt)}, p...), Detail: detail})
+				}
+				if !enabled {
+					return "ok:not-yet-active"
+				}
+				fl := new(big.Int).Mul(new(big.Int).SetUint64(sumLimits), pre.MinGasMultiplier.BigInt())
+				fl.Div(fl, bi("1000000000000000000"))
+				fig := fl.Uint64()
+				if used > fig {
+					fig = used
+				}
+				if got := k.GetBlockGasWanted(ctx); got != fig {
+					viol("gasfigure", "the stored gas figure of a block with real transactions differs from max(sum of gas limits x multiplier, gas used)",
+						map[string]any{"got": got, "want": fig, "sum_gas_limits": sumLimits, "gas_used": used, "height": h})
+				}
+				want, branch := ref(base, fig, maxGas, pre.ElasticityMultiplier, pre.BaseFeeChangeDenominator, pre.MinGasPrice)
+				got := k.GetParams(ctx).BaseFee.BigInt()
+				if want == nil || got.Cmp(want) != 0 {
+					viol("recurrence", "the base fee after a block with real transactions differs from the EIP-1559 recurrence on its gas figure", map[string]any{"got": got.String(), "want": fmt.Sprint(want), "prev": base.String(), "g": fig, "height": h})
+				}
+				res.Nontrivial[fmt.Sprintf("rt|%d|%s|%d", enableAt, m.name, h)] = true
+				return "ok:" + branch
+			}})
+		}
+		sub := engine.NewResult(Prop)
+		e := &engine.Explorer{W: w, Res: sub, Stores: []string{"feemarket"}, MaxDepth: depth, Shard: shard, NShards: n, NoDedup: true,
+			Ops: func(*world.World, int, []string) []engine.Op { return ops }}
+		e.Run()
+		for d, v := range sub.States {
+			res.States[fmt.Sprintf("rt%d|%s", enableAt, d)] = v
+		}
+		sub.States = map[string]int{}
+		res.Merge(sub)
+	}
+}
+
 func Worker(shard, n int, tier string) *engine.Result {
 	res := engine.NewResult(Prop)
 	partFn(res, tier, shard, n)
@@ -416,6 +522,8 @@ func Worker(shard, n int, tier string) *engine.Result {
 	}
 	if shard < 8 {
 		histWorker(res, tier, shard, 8)
+	} else {
+		realTxWorker(res, tier, shard-8, n-8)
 	}
 	return res
 }
